@@ -173,6 +173,14 @@ def run_hist(ctx, base, spec, ops, extra=None):
             if op[0] == "interleave":
                 sim.interleave = (op[1], op[2])
                 res = sim.iterate(op[1])
+            elif op[0] == "late":
+                # the operator (or a fault) acts after the daemon's main loop has queued its tasks and before they run
+                def late(sub=op[2]):
+                    for o in sub:
+                        histories.apply_op(sim, mon, tuple(o))
+                sim.before_tasks = late
+                res = sim.iterate(op[1])
+                sim.before_tasks = None
             else:
                 res = histories.apply_op(sim, mon, op)
             if res is not None and res["error"]:
@@ -189,9 +197,41 @@ KF_SPEC = {"groups": [{"name": "g1"}, {"name": "g2"}, {"name": "g3"}],
            "copies": [{"file": 0, "node": "a", "has": "Y", "wants": "N"}, {"file": 0, "node": "b", "has": "Y", "wants": "N"}, {"file": 0, "node": "c", "has": "Y", "wants": "Y"}]}
 
 
+def late_corpus():
+    """a destination copy becomes healthy (operator repair) between the dispatch of a pull and its execution, while the source rots"""
+    out = []
+    for name in ("f.dat", "sub/f.dat"):
+        for dst_has in ("X", "M", None):
+            spec = {"groups": [{"name": "g1"}, {"name": "g2"}],
+                    "nodes": [{"name": "n1", "group": "g1", "stype": "A", "host": "h1", "active": True, "username": "u", "address": "addr"},
+                              {"name": "n2", "group": "g2", "stype": "A", "host": "h1", "active": True, "username": "u", "address": "addr"}],
+                    "acqs": ["acq1"], "files": [{"acq": "acq1", "name": name, "size": 150}],
+                    "copies": [{"file": 0, "node": "n1", "has": "Y", "wants": "Y"}] + ([{"file": 0, "node": "n2", "has": dst_has, "wants": "Y", "disk": "corrupt"}] if dst_has == "X" else []),
+                    "reqs": [{"file": 0, "from": "n1", "to": "g2", "state": "pending"}], "rules": [], "unregistered": [], "ireqs": []}
+            rel = f"acq1/{name}"
+            late = [("fault", "repair", "n2", rel), ("cli", "file state", [rel, "n2", "--set=healthy"]), ("fault", "corrupt", "n1", rel)]
+            if dst_has is None:
+                late = [("cli", "file import", [rel, "n2", "--register-new"])]  # harmless: nothing on disk yet
+            out.append((spec, [("late", "h1", late), ("iter", "h1")]))
+    return out
+
+
 def explore(ctx):
     explore_direct(ctx, 250 if ctx.quick() else 5000)
     base = ctx.tmp() / "sim"
+    for spec, ops in late_corpus():
+        run_hist(ctx, base, spec, ops, {"scenario": "late-operator"})
+        ctx.count("history-late-operator")
+    # the idle tidy-up removes only placeholders: a registered data file in a dot-directory that looks like the old (wrong) placeholder
+    # path of another file is not one (F-C01c)
+    tidy_spec = {"groups": [{"name": "g1"}], "nodes": [{"name": "n1", "group": "g1", "stype": "A", "host": "h1", "active": True, "username": "u", "address": "addr"}],
+                 "acqs": ["acq1"], "files": [{"acq": "acq1", "name": "sub/f", "size": 150}, {"acq": "acq1", "name": ".sub/f.placeholder", "size": 13}, {"acq": "acq1", "name": "g", "size": 13},
+                                             {"acq": "acq1", "name": "sub/.f.placeholderx", "size": 1}],
+                 "copies": [{"file": 0, "node": "n1", "has": "Y", "wants": "Y"}, {"file": 1, "node": "n1", "has": "Y", "wants": "Y"}, {"file": 2, "node": "n1", "has": "M", "wants": "Y", "disk": "ok"},
+                            {"file": 3, "node": "n1", "has": "Y", "wants": "Y"}],
+                 "reqs": [], "rules": [], "unregistered": [], "ireqs": []}
+    run_hist(ctx, base, tidy_spec, [("iter", "h1"), ("iter", "h1"), ("iter", "h1")], {"scenario": "tidy-up"})
+    ctx.count("history-tidy-up")
     # the known finding: h2's daemon deletes its copy between h1's count and h1's unlink
     run_hist(ctx, base, KF_SPEC, [("interleave", "h1", "h2")], {"scenario": "KF-C01-1"})
     ctx.count("history-known-finding")
@@ -200,6 +240,11 @@ def explore(ctx):
     for k in range(nh):
         spec = histories.gen_spec(ctx.rng)
         ops = histories.gen_ops(ctx.rng, spec, ctx.rng.randint(5, 12))
+        # some operator actions and faults land between a dispatch and the execution of the queued tasks
+        for j in range(len(ops) - 1):
+            if ops[j][0] == "iter" and ops[j + 1][0] in ("cli", "fault") and ctx.rng.random() < 0.3:
+                ops[j] = ("late", ops[j][1], [list(ops[j + 1])])
+                ops[j + 1] = ("iter", ops[j][1])
         r = run_hist(ctx, base, spec, ops)
         total_removed += r
         ctx.count("history")
